@@ -2,6 +2,7 @@
 the REAL `e(x, mapping, component)` / `expand_derivatives(e).evaluate(...)` against py/pyden.py (the
 mirror of den), and the serialisation of every run as a Coq `Example` about the hand model."""
 
+import collections
 import itertools
 import math
 import numbers
@@ -419,7 +420,9 @@ def run_real(thunk):
     return Outcome("num", r)
 
 
-def same_number(a, b):
+def same_number(a, b, scale=0.0, rel=1e-9):
+    """exact for int/Fraction pairs; otherwise relative `rel`, plus 1e-12 of the largest intermediate
+    magnitude `scale` (cancellation in float arithmetic)."""
     if isinstance(a, (int, Fr)) and isinstance(b, (int, Fr)):
         return a == b
     try:
@@ -428,7 +431,7 @@ def same_number(a, b):
         return False
     if math.isnan(x.real) or math.isnan(y.real):
         return False
-    return abs(x - y) <= 1e-9 * (1 + abs(x) + abs(y))
+    return abs(x - y) <= rel * (1 + abs(x) + abs(y)) + 1e-12 * scale
 
 
 # -------------------------------------------------------------------------------------------------
@@ -515,6 +518,234 @@ def shadow_builder(T, rng):
     return ufl.as_tensor(body[1] * M[0, 0] + body[0], (i,)), (rng.randrange(2),)
 
 
+
+# -------------------------------------------------------------------------------------------------
+# derivative stream: grad / .dx / div / curl / second derivatives of NON-polynomial expressions
+
+DERIVATIVE_TYPES = ("Grad", "Div", "NablaGrad", "NablaDiv", "Curl", "VariableDerivative")
+
+
+class Smooth:
+    """Random smooth scalar / vector expressions over x and mapped callables (with `derivatives`)."""
+
+    def __init__(self, T, rng):
+        self.T, self.rng = T, rng
+
+    def leaf(self):
+        r, T = self.rng, self.T
+        k = r.randrange(9)
+        if k < 3:
+            return T.x[r.randrange(2)]
+        if k < 5:
+            return r.choice(T.f)
+        if k == 5:
+            return r.choice(T.v)[r.randrange(2)]
+        if k == 6:
+            return r.choice(T.M)[r.randrange(2), r.randrange(2)]
+        if k == 7:
+            return ufl.as_ufl(r.choice([2, 3, 0.5, -1, 1.5]))
+        return ufl.grad(r.choice(T.f))[r.randrange(2)]
+
+    def pos(self, d):
+        r = self.rng
+        k = r.randrange(6)
+        if k == 0:
+            a = self.u(d - 1)
+            return a * a + 1
+        if k == 1:
+            return ufl.exp(0.1 * self.u(d - 1))
+        if k == 2:
+            return 2 + ufl.sin(self.u(d - 1))
+        if k == 3:
+            return ufl.cosh(0.1 * self.u(d - 1))
+        if k == 4:
+            return ufl.as_ufl(r.choice([2, 3, 0.5, 1.5]))
+        a = self.leaf()
+        return a * a + r.choice([1, 2])
+
+    def u(self, d):
+        r = self.rng
+        if d <= 0:
+            return self.leaf()
+        U = lambda: self.u(d - 1)  # noqa: E731
+        k = r.randrange(24)
+        if k == 0:
+            return U() + U()
+        if k == 1:
+            return U() * U()
+        if k == 2:
+            return U() / self.pos(d - 1)
+        if k in (3, 4):
+            return self.pos(d - 1) ** (0.3 * U())                       # varying exponent
+        if k == 5:
+            return ufl.as_ufl(r.choice([2, 3, 0.5])) ** (0.3 * U())     # constant base, varying exponent
+        if k == 6:
+            return U() ** r.choice([2, 3])
+        if k == 7:
+            return self.pos(d - 1) ** r.choice([-1, -2, 0.5, 1.5, 2])   # constant exponent, general base
+        if k == 8:
+            return r.choice([ufl.sin, ufl.cos])(U())
+        if k == 9:
+            return ufl.exp(0.1 * U())
+        if k == 10:
+            return r.choice([ufl.ln, ufl.sqrt])(self.pos(d - 1))
+        if k == 11:
+            return r.choice([lambda a: ufl.tan(0.2 * ufl.sin(a)), ufl.tanh, ufl.atan, ufl.erf])(U())
+        if k == 12:
+            return r.choice([ufl.sinh, ufl.cosh])(0.1 * U())
+        if k == 13:
+            return r.choice([ufl.asin, ufl.acos])(0.5 * ufl.sin(U()))
+        if k == 14:
+            return ufl.atan2(U(), self.pos(d - 1))
+        if k == 15:
+            return abs(U())
+        if k == 16:
+            op = r.choice([ufl.lt, ufl.gt, ufl.le, ufl.ge])
+            return ufl.conditional(op(U(), U()), U(), U())
+        if k == 17:
+            return r.choice([ufl.min_value, ufl.max_value])(U(), U())
+        if k == 18:
+            return self.vec(d - 1)[r.randrange(2)]
+        if k == 19:
+            return ufl.dot(self.vec(d - 1), self.vec(d - 1))
+        if k == 20:
+            return ufl.variable(U())
+        if k == 21:
+            i = Index()
+            return ufl.as_tensor(self.T.x[i] * U() + r.choice(self.T.v)[i], (i,))[r.randrange(2)]
+        if k == 22:
+            return ufl.as_matrix([[U(), U()], [U(), U()]])[r.randrange(2), r.randrange(2)]
+        return U() - U()
+
+    def vec(self, d):
+        r, T = self.rng, self.T
+        k = r.randrange(6)
+        if d <= 0 or k == 0:
+            return r.choice([T.x, r.choice(T.v)])
+        if k == 1:
+            return ufl.as_vector([self.u(d - 1), self.u(d - 1)])
+        if k == 2:
+            return self.u(d - 1) * self.vec(d - 1)
+        if k == 3:
+            i = Index()
+            return ufl.as_tensor(T.x[i] * self.u(d - 1) + r.choice(T.v)[i], (i,))
+        if k == 4:
+            return ufl.grad(self.u(d - 1))
+        return self.vec(d - 1) + self.vec(d - 1)
+
+
+def deriv_builder(T, rng):
+    g = Smooth(T, rng)
+    d = rng.choice([1, 2, 2, 3])
+    k = rng.randrange(12)
+    a, b = rng.randrange(2), rng.randrange(2)
+    if k < 3:
+        return ufl.grad(g.u(d))[a], ()
+    if k < 5:
+        return g.u(d).dx(a), ()
+    if k == 5:
+        return ufl.grad(ufl.grad(g.u(min(d, 2))))[a, b], ()
+    if k == 6:
+        return g.u(min(d, 2)).dx(a).dx(b), ()
+    if k == 7:
+        return ufl.div(g.vec(d)), ()
+    if k == 8:
+        return ufl.grad(g.vec(d)), (a, b)
+    if k == 9:
+        return ufl.nabla_grad(g.vec(d))[a, b], ()
+    if k == 10:
+        return ufl.curl(g.vec(d)), ()
+    return ufl.grad(g.u(d))[a] * g.u(1) + g.u(d).dx(b), ()
+
+
+def differentiated_kinds(e):
+    """Types of the nodes that stand under a derivative operator in the (unexpanded) expression."""
+    out = collections.Counter()
+    for n in nodes(e):
+        if type(n).__name__ in DERIVATIVE_TYPES:
+            for m in nodes(n.ufl_operands[0]):
+                nm = type(m).__name__
+                if nm not in ("MultiIndex", "Label"):
+                    out[nm] += 1
+    return out
+
+
+# -------------------------------------------------------------------------------------------------
+# tie stream: every comparison operator and min/max at a < b, a == b (exactly), a > b
+
+CMP = [("le", ufl.le), ("ge", ufl.ge), ("lt", ufl.lt), ("gt", ufl.gt), ("eq", ufl.eq), ("ne", ufl.ne),
+       ("min", ufl.min_value), ("max", ufl.max_value)]
+N_TIE = len(CMP) * 3 * 5
+
+
+def tie_builder(n):
+    """n-th case of the enumeration operator x relation x form of the equal-valued operand x context."""
+    opi, rest = n % len(CMP), n // len(CMP)
+    rel, rest = rest % 3 - 1, rest // 3
+    form = rest % 5
+    ctx = (form + opi + rel) % 2
+
+    def build(T, rng):
+        name, op = CMP[opi]
+        f, g, h = T.f[0], T.f[1], T.f[2]
+        a = [f, f * g, T.x[0], T.v[0][1] + g, f - h][form]
+        # a syntactically different expression with exactly the same value
+        b = [(f + g) - g, ufl.as_vector([g * f, h])[0], T.x[0] + 0 * T.x[1], ufl.variable(g + T.v[0][1]),
+             ufl.as_vector([h, f])[1] - ufl.as_vector([h, f])[0]][form]
+        b = b + rel
+        if name in ("min", "max"):
+            e = op(a, b) if ctx == 0 else op(b, a) * 2 + 1
+            return e, ()
+        c = op(a, b)
+        if ctx == 1:
+            c = ufl.Not(ufl.Or(ufl.Not(c), ufl.ne(f, f)))
+        return ufl.conditional(c, g + 2, g - 3), ()
+    return build
+
+
+# -------------------------------------------------------------------------------------------------
+# scope stream: an inner binder re-binds the index that an enclosing binder holds (all outer values,
+# in particular 0), and the index is used again AFTER the inner scope was evaluated
+
+N_SCOPE = 6 * 2 * 3
+
+
+def scope_builder(n):
+    inner_kind, rest = n % 6, n // 6
+    outer_kind, after = rest % 2, (rest // 2) % 3
+
+    def build(T, rng):
+        i = Index()
+        x, v, w, M = T.x, T.v[0], T.v[1], T.M[0]
+        # inner scopes that bind i themselves and have no free index
+        if inner_kind == 0:
+            inner = ufl.as_tensor(3 * v[i] + w[0] * v[i], (i,))[1]
+        elif inner_kind == 1:
+            inner = C.IndexSum(v[i] * w[i], MultiIndex((i,)))
+        elif inner_kind == 2:
+            inner = ufl.as_tensor(M[i, 0] + v[i], (i,))[0]
+        elif inner_kind == 3:
+            j = Index()
+            inner = ufl.as_tensor(M[i, j] * 2 + v[j], (i, j))[1, 0]
+        elif inner_kind == 4:
+            inner = C.IndexSum(ufl.as_tensor(v[i] + 1, (i,))[i] * w[i], MultiIndex((i,)))
+        else:
+            inner = ufl.as_tensor(C.IndexSum(v[i] * M[i, 1], MultiIndex((i,))) + w[i], (i,))[1]
+        # uses of the OUTER i after the inner scope (Division / Conditional / Power evaluate in order)
+        if after == 0:
+            body = (inner * v[i]) * w[i]
+        elif after == 1:
+            body = C.Division(inner, w[i] + 7)
+        else:
+            body = ufl.conditional(ufl.lt(inner, 10**6), w[i] + inner, v[i])
+        if outer_kind == 0:
+            if i.count() not in body.ufl_free_indices:
+                raise ValueError("outer index was contracted")
+            return C.IndexSum(body, MultiIndex((i,))), ()
+        return ufl.as_tensor(body, (i,)), (n % 2,)
+    return build
+
+
 def run_case(idx, seed, depth, exact_only=False, allow_known=True, build=None):
     """Generates one input, runs the real code and the mirror.  Returns a Case."""
     rng = random.Random(seed)
@@ -554,8 +785,16 @@ def run_case(idx, seed, depth, exact_only=False, allow_known=True, build=None):
     mp2 = make_mapping(T, env, rng, log_direct)
     c.mp = mp2
     c.real_direct = run_real(lambda: c.f.evaluate(x, mp2, comp, StackDict()))
+    memo = {}
+    c.scale = 0.0
     try:
-        c.expected = Outcome("num", pyden.evaluate(e, env, {}, comp).value())
+        c.expected = Outcome("num", pyden.evaluate(e, env, {}, comp, None, memo).value())
+        for j in memo.values():
+            for v in getattr(j, "c", {}).values():
+                try:
+                    c.scale = max(c.scale, abs(float(v)))
+                except (TypeError, OverflowError):
+                    pass
     except ZeroDivisionError:
         c.expected = Outcome("error", None, "ZeroDivisionError")
     except (ValueError, OverflowError) as ex:
